@@ -19,8 +19,8 @@ RULE = ('row-stochastic matrices from random sparse count matrices with 2..8 sta
         'ergodic. Cases where an exact power entry is within 1e-12 of the 1e-8 threshold are skipped '
         '(counted). Non-trivial: >= 3 states and reducible/periodic/extremal, or ergodic with a zero entry.')
 TRUSTED = ['LAPACK eig chooses the eigenvector (degenerate eigenspaces are only checked relationally)',
-           'uniqueness of the stationary vector of a matrix with one closed class is the textbook fact, '
-           'not proved here (stated as stationary_unique_full)']
+           'uniqueness is proved for matrices with an entrywise positive power (stationary_unique_thm); for a '
+           'restricted non-ergodic branch the unique solution is certified per case by the exact solver']
 ASSUMPTIONS = ['smallest stationary probability well above 1e-8 (threshold-free cases only)']
 BATCH = 300
 TOL = Fraction(1, 10**9)
